@@ -240,6 +240,31 @@ func genC12Long(tier string, r *Rng, emit func(Case)) {
 		args := append(append(toks{}, t...), "0", itoa(r.Intn(4)), itoa(r.Pick([]int{0, 10, 700})))
 		emit(Case{Ver: ver, Op: "Fprint", Args: args})
 	}
+	// an unbroken run of digits (no rows, no columns: no separator write follows a fault), a small buffer, an early
+	// fault, far more digits requested than the read-ahead allowance
+	for _, ver := range allVers {
+		for mode := 0; mode < 4; mode++ {
+			var t toks
+			t.s("G")
+			t.ints(nil)
+			t.ints(randDigits(r, r.Range(1, 6)))
+			t.i(1)
+			t.i(-1)
+			t.i(-1)
+			t.i(1)
+			t.i(0)
+			t.i(2600)
+			t.i(0)
+			t.i(0)
+			t.bool(r.Bool())
+			t.i('.')
+			t.bool(true)
+			t.bool(false)
+			t.i(0)
+			args := append(append(toks{}, t...), itoa(r.Pick([]int{16, 64})), itoa(mode), itoa(r.Pick([]int{3, 10, 200})))
+			emit(Case{Ver: ver, Op: "Fprint", Args: args})
+		}
+	}
 	// faults at and just after the points where the default buffer has filled up (4096 bytes and its multiples),
 	// in every failure mode, with and without rows
 	for _, ver := range allVers {
